@@ -132,15 +132,15 @@ SPEC = {
     "gens": ["RankTable", "TypingTables"],
     "lean_modules": ["RsslVerif.Thm.C03"],
     "theorems": [T + n for n in [
-        "find_target_layer", "find_sound_partial", "find_sound_fails", "find_rejects_rvalue_to_lvalue", "find_keeps_const",
-        "elab_sound", "elabStmt_sound", "ids_in_range",
+        "find_sound", "find_rejects_rvalue_to_lvalue", "find_keeps_const",
+        "elab_sound", "elab_debug_check_redundant", "elabStmt_sound", "ids_in_range",
         "elab_rejects_assign_to_const", "elab_rejects_assign_to_rvalue", "elab_rejects_increment",
         "elab_rejects_call", "elab_rejects_arity", "elab_rejects_unconvertible", "elab_rejects_out_arg_rvalue",
         "elab_rejects_out_arg_const", "elab_rejects_return_type", "elab_rejects_return_void",
         "elab_rejects_assign_to_rvalue_form", "elab_rejects_increment_of_rvalue_form",
         "assignment_operands", "binary_operands_equal", "binop_rules",
         "elab_assign_exact", "elab_arith_exact", "elab_call_args_exact",
-        "out_arg_receives_cast", "release_accepts_ill_typed"]],
+        "out_arg_receives_cast"]],
     "harness": "c03",
     "nontrivial": nontrivial,
     "finding_key": finding_key,
@@ -152,8 +152,9 @@ SPEC = {
                   "IR's own typing judgment (get_type / get_return_type with their asserts as premises), with every "
                   "sub-expression typed, and that writes to const or rvalue expressions, rvalue/const arguments to out/inout "
                   "parameters, wrong arity, unconvertible arguments and wrong return types are never accepted. Soundness of "
-                  "ImplicitConversion::find (target = requested type) is proved where it holds and refuted with a replayed "
-                  "witness where it does not.",
+                  "ImplicitConversion::find (target = requested type) and of elaboration holds at full strength for debug "
+                  "and release builds (the debug-only type query is proved redundant); the one remaining witness is an "
+                  "rvalue cast reaching an out parameter.",
     "rule": "C03.conv = one row of the exhaustive find/get_target_type table over 8 scalar kinds x {scalar, vec1-4, 2 matrices} "
             "+ enums + structs x modifier sets x {lvalue,rvalue}. C03.prog = (local variable types, function prototypes, return "
             "type, one statement) compiled as an RSSL program through the real type_check: every unary operator on every "
@@ -177,8 +178,8 @@ SPEC = {
     ],
     "assumptions": [
         "TypeId equality is structural equality of types (the type registry hash-conses layers)",
-        "debug build: parse_expr_internal re-derives the type of every node (cfg(debug_assertions)); elab_sound is stated for "
-        "that build, the statement-level check of parse_expr exists in every build",
+        "the harness is a debug build (parse_expr_internal re-derives the type of every node); the theorems cover both build "
+        "modes and prove that this query never fires",
         "no templates, methods, swizzles, subscripts, constructors, enums inside operators (reached by the IR walk only)",
         "signature parameter types carry no modifier (parse_function_signature strips them)",
     ],
